@@ -26,7 +26,10 @@ def main(path):
     import soundevent
     target = target_callable(rec["target"])
     try:
-        args = {k: build(v) for k, v in rec["inputs"].items()}
+        if hasattr(contract, "build_inputs"):
+            args = contract.build_inputs({k: build(v, raw=True) for k, v in rec["inputs"].items()})
+        else:
+            args = {k: build(v) for k, v in rec["inputs"].items()}
     except Exception as e:  # the model is outside the real constructors' domain
         print(json.dumps(dict(reproduced=False, why=f"inputs not constructible: {type(e).__name__}: {e}")))
         return 0
